@@ -441,22 +441,21 @@ def dump_snap(s, obj_of_hash):
     }
 
 
-def run_case(case):
-    """run the real agent on the case; observation = snapshots + heap description + roots."""
+def _drive(case, objs, act_ids):
+    """run the real agent once with the actions `act_ids` of the case installed; raw results."""
     import deep.processor.frame_collector as fcm
     from deep.api.tracepoint.trigger import LocationAction, Trigger, LineLocation, Location
-    objs = build(case['objs'])
     rig = Rig()
     orig_time = fcm.time_ns
     exceeded = bool(case.get('time_exceeded'))
     fcm.time_ns = (lambda: rig.clock + (10 ** 12 if exceeded else 0))
-    obs = {}
+    out = {'obs': {}}
     try:
         src, line = host_source(case)
         glb = {'__name__': 'c05host'}
         exec(compile(src, HOST_FILE, 'exec'), glb)
-        actions = [LocationAction('tp%d' % i, None, action_config(a, case), LocationAction.ActionType.Snapshot)
-                   for i, a in enumerate(case['actions'])]
+        actions = [LocationAction('tp%d' % i, None, action_config(case['actions'][i], case),
+                                  LocationAction.ActionType.Snapshot) for i in act_ids]
         if case.get('one_trigger'):
             trigs = [Trigger(LineLocation(HOST_BASE, line, Location.Position.START), actions)]
         else:
@@ -465,6 +464,7 @@ def run_case(case):
         args = [objs[j] for _, j in case['locals']]
         frames_locals = []
         capture_val = None
+        obs = out['obs']
         if case.get('mock'):
             # a chain of frame-like objects (multi-frame cases: the real thread stack below a host function holds
             # interpreter and harness frames)
@@ -472,16 +472,15 @@ def run_case(case):
             for fr in reversed(case['mock']):
                 loc = {n: objs[j] for n, j in fr}
                 chain = MockFrame(HOST_FILE, 'host', line, loc, f_back=chain, f_globals=glb)
-            fr0 = chain
             f = chain
             while f is not None:
                 frames_locals.append(f.f_locals)
                 f = f.f_back
             try:
-                rig.handler.trace_call(fr0, 'line', None)
+                rig.handler.trace_call(chain, 'line', None)
             except BaseException as e:   # noqa: B902
                 obs['raised'] = f'{type(e).__name__}: {e}'
-            host_locals = fr0.f_locals
+            host_locals = chain.f_locals
             res = {}
         else:
             shim = Shim(rig.handler)
@@ -499,52 +498,77 @@ def run_case(case):
                     capture_val = ev[0][3]
                     obs['capture_event'] = ev[0][0]
             obs['trace_kept'] = res.get('trace_after') is not None
+            out['shim'] = shim
         if 'exc' in res and not case.get('capture') == 'exception':
             obs['host_exc'] = f'{type(res["exc"]).__name__}: {res["exc"]}'
-        # ---- describe what the agent saw
-        pre_roots = list(frames_locals)
-        # objects alive during the whole run: ids usable to map table entries to objects
-        _, _, pre_keep = describe_heap(pre_roots)
-        pre_ids = {id(o) for o in pre_keep}
-        watch_vals = []
-        for a in case['actions']:
-            vals = []
-            for kind, expr in watch_exprs(a):
-                try:
-                    v = eval(expr, glb, host_locals)
-                except BaseException as e:   # noqa: B902 — evaluate_expression returns the exception as the value
-                    v = e
-                vals.append((kind, expr, v))
-            if case.get('capture') and 'capture_event' in obs:
-                vals.append(('capture', obs['capture_event'], capture_val))
-            watch_vals.append(vals)
-        roots = list(frames_locals) + [v for vals in watch_vals for _, _, v in vals]
-        heap, index_of, keep = describe_heap(roots)
-        obs['heap'] = heap
-        obs['frames_locals'] = [index_of(f) for f in frames_locals]
-        obs['watch_roots'] = [[[k, e, index_of(v)] for k, e, v in vals] for vals in watch_vals]
-        held = {id(o): index_of(o) for o in keep if id(o) in pre_ids}
-
-        def obj_of_hash(h):
-            try:
-                return held.get(int(h))
-            except (TypeError, ValueError):
-                return None
-        pushed = list(rig.push.pushed)
-        obs['snapshots'] = [dump_snap(s, obj_of_hash) for s in pushed]
-        obs['nframes'] = [len(s.frames) for s in pushed]
-        obs['shared_tables'] = len({id(s.var_lookup) for s in pushed}) != len(pushed)
-        obs['shared_frames'] = len({id(s.frames[0].variables) for s in pushed if s.frames}) != \
-            len([s for s in pushed if s.frames])
-        global _LIVE
-        _TOKEN[0] += 1
-        obs['live_token'] = _TOKEN[0]
-        _LIVE = {'token': _TOKEN[0], 'keep': keep, 'index_of': index_of, 'frames_locals': frames_locals,
-                 'watch_vals': watch_vals, 'objs': objs, 'pushed': pushed}
-        return obs
+        out.update(glb=glb, host_locals=host_locals, frames_locals=frames_locals, capture_val=capture_val,
+                   pushed=list(rig.push.pushed))
+        return out
     finally:
         fcm.time_ns = orig_time
         rig.close()
+
+
+def run_case(case):
+    """run the real agent on the case; observation = snapshots + heap description + roots."""
+    objs = build(case['objs'])
+    d = _drive(case, objs, list(range(len(case['actions']))))
+    obs = d['obs']
+    glb, host_locals, frames_locals = d['glb'], d['host_locals'], d['frames_locals']
+    global _LIVE
+    if has_outside(case):
+        # a value whose __str__ raises a BaseException: outside the modelled domain, nothing of it is probed here
+        obs['snapshots'] = [dump_snap(s, lambda h: None) for s in d['pushed']]
+        _TOKEN[0] += 1
+        obs['live_token'] = _TOKEN[0]
+        _LIVE = {'token': _TOKEN[0], 'keep': [], 'index_of': lambda o: None, 'frames_locals': [], 'watch_vals': [],
+                 'objs': objs, 'pushed': d['pushed'], 'held': set()}
+        return obs
+    # ---- describe what the agent saw
+    # objects alive during the whole run: ids usable to map table entries to objects
+    _, _, pre_keep = describe_heap(list(frames_locals))
+    pre_ids = {id(o) for o in pre_keep}
+    watch_vals = []
+    for a in case['actions']:
+        vals = []
+        for kind, expr in watch_exprs(a):
+            try:
+                v = eval(expr, glb, host_locals)
+            except BaseException as e:   # noqa: B902 — evaluate_expression returns the exception as the value
+                v = e
+            vals.append((kind, expr, v))
+        if case.get('capture') and 'capture_event' in obs:
+            vals.append(('capture', obs['capture_event'], d['capture_val']))
+        watch_vals.append(vals)
+    roots = list(frames_locals) + [v for vals in watch_vals for _, _, v in vals]
+    heap, index_of, keep = describe_heap(roots)
+    obs['heap'] = heap
+    obs['frames_locals'] = [index_of(f) for f in frames_locals]
+    obs['watch_roots'] = [[[k, e, index_of(v)] for k, e, v in vals] for vals in watch_vals]
+    held = {id(o): index_of(o) for o in keep if id(o) in pre_ids}
+
+    def obj_of_hash(h):
+        try:
+            return held.get(int(h))
+        except (TypeError, ValueError):
+            return None
+    pushed = d['pushed']
+    obs['snapshots'] = [dump_snap(s, obj_of_hash) for s in pushed]
+    obs['shared_tables'] = len({id(s.var_lookup) for s in pushed}) != len(pushed)
+    obs['shared_frames'] = len({id(s.frames[0].variables) for s in pushed if s.frames}) != \
+        len([s for s in pushed if s.frames])
+    if case.get('solo') and len(case['actions']) > 1:
+        # every action once more, alone, on the same objects: what "complete on its own" is measured against
+        solo = []
+        for i in range(len(case['actions'])):
+            di = _drive(case, objs, [i])
+            solo.append([dump_snap(s, lambda h: None) for s in di['pushed']])
+        obs['solo'] = solo
+    _TOKEN[0] += 1
+    obs['live_token'] = _TOKEN[0]
+    _LIVE = {'token': _TOKEN[0], 'keep': keep, 'index_of': index_of, 'frames_locals': frames_locals,
+             'watch_vals': watch_vals, 'objs': objs, 'pushed': pushed, 'held': set(held.values())}
+    return obs
 
 
 def watch_exprs(act):
@@ -992,3 +1016,324 @@ def gen_case(rng, lim=None, nobj=None, hostile=0.0, outside=False, nactions=1, s
     if locals_self:
         case['locals_self'] = locals_self
     return case
+
+
+# ------------------------------------------------------------------------------------- oracles (the statements)
+def expands_unknown(o):
+    """an object of a kind the reference does not enumerate children for, but which may have some"""
+    if Ref.kind(o) != 'other':
+        return False
+    try:
+        if type(o).__name__ in LIST_NAMES:
+            return True
+        if isinstance(o, Exception):
+            return True
+        return hasattr(o, '__dict__') and len(o.__dict__) > 0
+    except Exception:
+        return True
+
+
+def snap_vids(s):
+    vids = set()
+    for f in s['frames']:
+        vids.update(v[0] for v in f)
+    for e in s['vars']:
+        vids.add(e['vid'])
+        vids.update(c[0] for c in e['children'])
+    for w in s['watches']:
+        if w['result'] is not None:
+            vids.add(w['result'][0])
+    return {int(v) for v in vids if v is not None}
+
+
+def judge_bounds(case, obs, live, ai, s):
+    """C05: the four bounds, exact truncation, breadth-first spending of the budget, no early stop."""
+    v = []
+    lim = limits_of(case['actions'][ai]['limits'])
+    ref = Ref(lim)
+    keep = live['keep']
+    table = {int(e['vid']): e for e in s['vars']}
+    collected = case.get('frame_type', 'single_frame') != 'no_frame' and not case.get('time_exceeded')
+    vids = snap_vids(s)
+    n_alloc = max(vids | ({1} if collected and (s['frames'] and (s['frames'][0] or lim['vars'] >= 0)) else set()),
+                  default=0)
+    if len(table) > lim['vars'] + 1 or n_alloc > lim['vars'] + 1:
+        v.append(f'{len(table)} variables (highest id {n_alloc}) with MAX_VARIABLES={lim["vars"]}')
+    for vid, e in table.items():
+        val = e['value']
+        if len(val) > lim['str']:
+            v.append(f'variable {vid}: value of {len(val)} characters with MAX_STRING_LENGTH={lim["str"]}')
+        o = keep[e['obj']] if e['obj'] is not None else None
+        if o is not None:
+            full = ref.render(o)
+            if val != full[:lim['str']] or bool(e['truncated']) != (len(full) > lim['str']):
+                v.append(f'variable {vid} ({e["type"]}): value {val[:40]!r} truncated={e["truncated"]} but the full '
+                         f'text has {len(full)} characters (limit {lim["str"]}): expected {full[:lim["str"]][:40]!r} '
+                         f'truncated={len(full) > lim["str"]}')
+            if type(o) in LIST_TYPES or (Ref.kind(o) == 'exc'):
+                if len(e['children']) > lim['coll']:
+                    v.append(f'variable {vid} ({e["type"]}): {len(e["children"])} children with '
+                             f'MAX_COLLECTION_SIZE={lim["coll"]}')
+        else:
+            if e['truncated'] and len(val) != lim['str']:
+                v.append(f'variable {vid}: flagged truncated but has {len(val)} characters (limit {lim["str"]})')
+            if e['type'] in LIST_NAMES and len(e['children']) > lim['coll']:
+                v.append(f'variable {vid} ({e["type"]}): {len(e["children"])} children with '
+                         f'MAX_COLLECTION_SIZE={lim["coll"]}')
+    # depth: breadth-first distance in the snapshot's own graph (frame variables are level 1, watch results level 0)
+    dist = {}
+    frontier = []
+    for f in s['frames']:
+        for r in f:
+            if r[0] is not None and int(r[0]) not in dist:
+                dist[int(r[0])] = 1
+                frontier.append(int(r[0]))
+    for w in s['watches']:
+        if w['result'] is not None and w['result'][0] is not None:
+            k = int(w['result'][0])
+            if dist.get(k, 99) > 0:
+                dist[k] = 0
+                frontier.append(k)
+    frontier.sort(key=lambda k: dist[k])
+    i = 0
+    while i < len(frontier):
+        k = frontier[i]
+        i += 1
+        for c in table.get(k, {'children': []})['children']:
+            ck = int(c[0])
+            if ck not in dist or dist[ck] > dist[k] + 1:
+                dist[ck] = dist[k] + 1
+                frontier.append(ck)
+    cap = max(lim['depth'] - 1, 0)
+    deep = [k for k in table if dist.get(k, 0) > cap]
+    if deep:
+        v.append(f'variable {deep[0]} is nested {dist[deep[0]]} levels deep with MAX_VAR_DEPTH={lim["depth"]}')
+    # the budget: spent breadth-first, and fully spent before anything within the bounds is dropped
+    if collected and live['frames_locals'] and not case.get('mock'):
+        root = live['frames_locals'][0]
+        lv, objs = ref.levels(root)
+        if not any(expands_unknown(o) for o in objs.values()):
+            rec = {id(keep[e['obj']]) for e in table.values() if e['obj'] is not None}
+            missing = [k for k in lv if k not in rec and k != id(root)]
+            if missing:
+                m = min(lv[k] for k in missing)
+                x = objs[[k for k in missing if lv[k] == m][0]]
+                deeper = [k for k in rec if k in lv and lv[k] > m]
+                if deeper:
+                    v.append(f'budget not spent breadth-first: a value of type {type(x).__name__} at depth {m} is missing '
+                             f'while a value at depth {lv[deeper[0]]} is recorded')
+                if n_alloc < lim['vars'] + 1:
+                    v.append(f'a value of type {type(x).__name__} at depth {m} (within MAX_VAR_DEPTH={lim["depth"]} and '
+                             f'MAX_COLLECTION_SIZE={lim["coll"]}) is missing although only {n_alloc} of '
+                             f'{lim["vars"] + 1} variable ids were used')
+    return v
+
+
+def judge_identity(case, obs, live, ai, s):
+    """C07: closure, one object one id, references denote the right object, temporaries do not share ids."""
+    v = []
+    lim = limits_of(case['actions'][ai]['limits'])
+    ref = Ref(lim)
+    keep, index_of = live['keep'], live['index_of']
+    table = {}
+    for e in s['vars']:
+        if int(e['vid']) in table:
+            v.append(f'two table entries under id {e["vid"]}')
+        table[int(e['vid'])] = e
+
+    def resolves(r, where):
+        if r[0] is None:
+            v.append(f'{where}: reference {r[1]!r} carries no id')
+            return None
+        if int(r[0]) not in table:
+            v.append(f'{where}: reference {r[1]!r} -> id {r[0]} has no entry in the variable table')
+            return None
+        return table[int(r[0])]
+    seen_obj = {}
+    for vid, e in table.items():
+        if e['obj'] is not None:
+            if e['obj'] in seen_obj:
+                v.append(f'one object recorded twice: ids {seen_obj[e["obj"]]} and {vid}')
+            seen_obj[e['obj']] = vid
+
+    def check_kids(where, children, kids):
+        """children must be, in order, references to the first kids (by name and by object identity)"""
+        for i, c in enumerate(children):
+            e = resolves(c, where)
+            if kids is None or e is None:
+                continue
+            if i >= len(kids):
+                v.append(f'{where}: child {c[1]!r} beyond the {len(kids)} children of the value')
+                continue
+            name, orig, target = kids[i]
+            if c[1] != name or c[3] != orig:
+                v.append(f'{where}: child {i} is named {c[1]!r}/{c[3]!r}, expected {name!r}/{orig!r}')
+            ti = index_of(target)
+            if ti in live['held'] and e['obj'] != ti:
+                v.append(f'{where}: child {c[1]!r} -> id {c[0]} is the entry of another object')
+    # frames
+    for fi, f in enumerate(s['frames']):
+        if fi < len(live['frames_locals']):
+            d = live['frames_locals'][fi]
+            check_kids(f'frame {fi}', f, [(k, None, d[k]) for k in list(d.keys())])
+        else:
+            for r in f:
+                resolves(r, f'frame {fi}')
+    for vid, e in table.items():
+        o = keep[e['obj']] if e['obj'] is not None else None
+        check_kids(f'variable {vid}', e['children'], ref.kids(o) if o is not None else None)
+    # watches
+    vals = live['watch_vals'][ai]
+    fresh = {}
+    for w, (kind, expr, val) in zip(s['watches'], vals):
+        if w['result'] is None:
+            continue
+        e = resolves(w['result'], f'watch {expr!r}')
+        if e is None:
+            continue
+        vi = index_of(val)
+        if vi in live['held']:
+            if e['obj'] != vi:
+                v.append(f'watch {expr!r} -> id {w["result"][0]} is the entry of another object')
+        else:
+            # a value created by the expression: a new object, never the same object as anything else
+            k = int(w['result'][0])
+            if k in fresh and fresh[k][1] is not val:
+                v.append(f'watches {fresh[k][0]!r} and {expr!r} evaluate to different objects but share id {k}')
+            fresh[k] = (expr, val)
+            if e['obj'] is not None:
+                v.append(f'watch {expr!r} creates a new object but got id {k} of a variable of the frame')
+            if e['type'] != type(val).__name__ or e['value'] != ref.render(val)[:lim['str']]:
+                v.append(f'watch {expr!r} -> id {k} describes {e["type"]} {e["value"][:30]!r}, the value is '
+                         f'{type(val).__name__} {ref.render(val)[:30]!r}')
+            ks = ref.kids(val)
+            if ks is not None and lim['depth'] > 1:
+                got = [(c[1], table[int(c[0])]['value'] if c[0] is not None and int(c[0]) in table else None)
+                       for c in e['children']]
+                want = [(n, ref.render(t)[:lim['str']]) for n, _, t in ks][:len(got)]
+                if got != want:
+                    v.append(f'watch {expr!r} -> id {k}: children {got[:4]} do not describe the value {want[:4]}')
+    return v
+
+
+def judge_total(case, obs, live):
+    """C06: a snapshot per due tracepoint, variables intact (offenders as placeholders), snapshots independent."""
+    v = []
+    if 'raised' in obs:
+        v.append('trace_call raised into the host: ' + obs['raised'])
+    if obs.get('trace_kept') is False:
+        v.append('the trace function was removed')
+    if 'host_exc' in obs:
+        v.append('the host function raised: ' + obs['host_exc'])
+    snaps = {}
+    for s in obs.get('snapshots', []):
+        snaps.setdefault(s['tp'], []).append(s)
+    for i, a in enumerate(case['actions']):
+        got = snaps.get('tp%d' % i, [])
+        if len(got) != 1:
+            v.append(f'tracepoint tp{i}: {len(got)} snapshots handed to the push service, 1 is due')
+            continue
+        s = got[0]
+        lim = limits_of(a['limits'])
+        ref = Ref(lim)
+        keep = live['keep']
+        table = {int(e['vid']): e for e in s['vars']}
+        collected = case.get('frame_type', 'single_frame') != 'no_frame' and not case.get('time_exceeded')
+        n_alloc = max(snap_vids(s) | {1}, default=1)
+        if collected and live['frames_locals'] and lim['depth'] >= 2:
+            d = live['frames_locals'][0]
+            names = list(d.keys())
+            got_names = [r[1] for r in s['frames'][0]] if s['frames'] else []
+            if got_names != names[:len(got_names)]:
+                v.append(f'tp{i}: frame variables {got_names[:8]} are not the locals {names[:8]}')
+            elif len(got_names) < len(names) and n_alloc < lim['vars'] + 1:
+                v.append(f'tp{i}: local {names[len(got_names)]!r} is missing ({len(got_names)} of {len(names)} locals, '
+                         f'{n_alloc} of {lim["vars"] + 1} variable ids used)')
+        for vid, e in table.items():
+            o = keep[e['obj']] if e['obj'] is not None else None
+            if o is None:
+                continue
+            full = ref.render(o)
+            if e['type'] != type(o).__name__ or e['value'] != full[:lim['str']]:
+                v.append(f'tp{i} variable {vid}: recorded as {e["type"]} {e["value"][:40]!r}, the value is '
+                         f'{type(o).__name__} {full[:40]!r}')
+        if 'solo' in obs:
+            alone = obs['solo'][i]
+            if len(alone) != 1:
+                v.append(f'tp{i}: alone it produces {len(alone)} snapshots')
+            else:
+                def strip(x):
+                    return {'frames': x['frames'], 'vars': [{k: e[k] for k in e if k != 'obj'} for e in x['vars']],
+                            'watches': x['watches']}
+                if strip(alone[0]) != strip(s):
+                    v.append(f'tp{i}: its snapshot differs from the one it produces alone: '
+                             f'{core.canon(strip(s))[:300]} vs alone {core.canon(strip(alone[0]))[:300]}')
+    if obs.get('shared_tables'):
+        v.append('two snapshots of one trace event share one variable table object')
+    if obs.get('shared_frames'):
+        v.append('two snapshots of one trace event share one frame variable list')
+    return v
+
+
+def has_hostile(case):
+    return any(s['t'] == 'hostile' for s in case['objs'])
+
+
+def has_outside(case):
+    return any(s['t'] == 'outside' for s in case['objs'])
+
+
+def refers_to_locals(case):
+    return bool(case.get('locals_self')) or any('locals()' in e for a in case['actions'] for _, e in watch_exprs(a))
+
+
+def snapshots_by_action(case, obs):
+    out = []
+    snaps = {}
+    for s in obs.get('snapshots', []):
+        snaps.setdefault(s['tp'], s)
+    for i in range(len(case['actions'])):
+        if 'tp%d' % i in snaps:
+            out.append((i, snaps['tp%d' % i]))
+    return out
+
+
+def shrink_case(case):
+    """smaller candidates: fewer actions, fewer watches, fewer locals, fewer elements."""
+    if len(case['actions']) > 1:
+        for i in range(len(case['actions'])):
+            c = dict(case)
+            c['actions'] = case['actions'][:i] + case['actions'][i + 1:]
+            yield c
+    for ai, a in enumerate(case['actions']):
+        for key in ('watches', 'log'):
+            if a.get(key):
+                c = dict(case)
+                a2 = dict(a)
+                if key == 'watches' and len(a[key]) > 1:
+                    for j in range(len(a[key])):
+                        a3 = dict(a)
+                        a3[key] = a[key][:j] + a[key][j + 1:]
+                        c2 = dict(case)
+                        c2['actions'] = case['actions'][:ai] + [a3] + case['actions'][ai + 1:]
+                        yield c2
+                a2.pop(key)
+                c['actions'] = case['actions'][:ai] + [a2] + case['actions'][ai + 1:]
+                yield c
+    if len(case['locals']) > 1 and not case.get('mock'):
+        for i in range(len(case['locals'])):
+            name = case['locals'][i][0]
+            if case.get('capture_expr') == name or any(name in e for a in case['actions'] for _, e in watch_exprs(a)):
+                continue
+            c = dict(case)
+            c['locals'] = case['locals'][:i] + case['locals'][i + 1:]
+            yield c
+    for i, s in enumerate(case['objs']):
+        for key in ('e', 'k', 'a'):
+            if isinstance(s.get(key), list) and len(s[key]) > 1:
+                for cut in (s[key][:len(s[key]) // 2], s[key][:-1]):
+                    c = dict(case)
+                    s2 = dict(s)
+                    s2[key] = cut
+                    c['objs'] = case['objs'][:i] + [s2] + case['objs'][i + 1:]
+                    yield c
